@@ -889,7 +889,8 @@ theorem trialStates_none (st : St) (fwd : Bool) (e : Nat) (T : List (Option Nat)
 /-- The successes of `ClassSet::node` (no `i`, not negated) as a trial list: the strings by
 descending length, the bracket, the empty string. -/
 theorem node_trials (ht : Utf8Text inp cs) (fwd : Bool) (st : St) {e : Nat} (he : e ≤ cs.length)
-    (hpos : st.pos = Utf8.off cs e) (s : ClassSet) (hsc : ∀ a ∈ s.alts, Utf8.AllScalar a) :
+    (hpos : st.pos = Utf8.off cs e) (s : ClassSet) (hsc : ∀ a ∈ s.alts, Utf8.AllScalar a)
+    (hlen1 : ∀ a ∈ s.alts, a.length ≠ 1) :
     sem inp (s.node false false) fwd st =
       trialStates cs st fwd e
         ((sortByLenDesc (s.alts.filter (fun a => !a.isEmpty))).map (strTrial cs fwd e) ++
@@ -922,7 +923,7 @@ theorem node_trials (ht : Utf8Text inp cs) (fwd : Bool) (st : St) {e : Nat} (he 
         rw [hstr, hnil, charTrial_empty, trialStates_none]
       · simp only [h2, Bool.false_eq_true, if_false, makeAlt_two, altsIntoNode]
         rw [sem_alt, hstr, hbr, trialStates_append]
-  simp only [ClassSet.node]
+  rw [node_eq s false false hlen1]
   by_cases hE : s.alts.any (fun a => a.isEmpty) = true
   · simp only [hE, if_true, makeAlt_two]
     rw [sem_alt, h0, trialStates_zero st fwd hpos]
@@ -980,7 +981,7 @@ theorem sim_stringClass (ht : Utf8Text inp cs) (total : Nat) (rer : ES.RER) (hic
     Sim inp cs total (ES.charSetAtomMatcher cs.toArray rer A false (dirOf back)) (s.node false false) (!back) lo hi := by
   intro fuel x st c k hr _ _ hc
   have he := hr.idx
-  rw [charSetAtom_trials hic hus A back fuel x c he, node_trials ht (!back) st he hr.pos s hsc,
+  rw [charSetAtom_trials hic hus A back fuel x c he, node_trials ht (!back) st he hr.pos s hsc hlen1,
     findSome?_trialStates]
   -- the two lists of strings have the same members
   have hmem : ∀ a, a ∈ (A.strs.filter (fun s => s.length > 1)).mergeSort (fun s t => s.length ≥ t.length) ↔
@@ -1046,7 +1047,7 @@ theorem sim_stringClass (ht : Utf8Text inp cs) (total : Nat) (rer : ES.RER) (hic
           subst hl; cases back <;> simp [advance] <;> omega
         · cases hl
     refine hc _ _ ?_ (hr.withIdx hbound)
-    rw [node_trials ht (!back) st he hr.pos s hsc]
+    rw [node_trials ht (!back) st he hr.pos s hsc hlen1]
     apply mem_trialStates
     have : some l ∈ ((A.strs.filter (fun s => s.length > 1)).mergeSort (fun s t => s.length ≥ t.length)).map
           (strTrial cs (!back) x.endIndex) ++
